@@ -309,11 +309,6 @@ func (d *refDriver) Shrink(cc core.Case) []core.Case {
 		n.Reshuffle = 0
 		out = append(out, n)
 	}
-	for _, s := range model.ShrinkScenario(c.Scenario) {
-		n := clone()
-		n.Scenario = s
-		out = append(out, n)
-	}
 	if len(c.Runs) == 1 {
 		r := c.Runs[0]
 		names := sortedNames(c.texts())
@@ -327,6 +322,11 @@ func (d *refDriver) Shrink(cc core.Case) []core.Case {
 			n.Runs[0].Sched = s
 			out = append(out, n)
 		}
+	}
+	for _, s := range model.ShrinkScenario(c.Scenario) {
+		n := clone()
+		n.Scenario = s
+		out = append(out, n)
 	}
 	if c.Options != (world.Options{}) {
 		n := clone()
